@@ -1,7 +1,7 @@
 (* Props/C02.v — property C02: expression text parses to the tree the precedence rules dictate.
    ONLY statements; every proof is `exact <lemma of Proofs/C02.v>`.  The model
    (Model/ExprParser.v) runs on regexes and the precedence table REGENERATED from parser.py. *)
-From BS Require Import Model.Base Model.Regex Model.NumText Model.ExprParser Gen.Unicode Gen.Tables Gen.Regexes Proofs.C02 Proofs.C13rx Proofs.C02rx.
+From BS Require Import Model.Base Model.Regex Model.NumText Model.ExprParser Gen.Unicode Gen.Tables Gen.Regexes Proofs.C02 Proofs.C13rx Proofs.C02rx Proofs.ExprFuel Proofs.TotalFuel.
 
 (* the regenerated BINARY_REORDER table is exactly "strictly lower documented level" *)
 Theorem C02_table_is_level_order : forall a b,
@@ -117,6 +117,17 @@ Theorem C02_lexing_nonvacuous :
   ident_body (U "ab1 + c") = Some 3%nat /\ ident_body (U "1a") = None /\
   call_body (U "fn  (x)") = Some (2%nat, 5%nat) /\ call_body (U "f(x)") = None /\ lit_match (U " 12.5e+3x") = Some (1%nat, 8%nat).
 Proof. exact lexing_samples. Qed.
+
+(* the model's recursion fuel (2*|text|+4) always suffices, and no host exception escapes: parse_expression returns a tree
+   or a parser error for EVERY text (Proofs/ExprFuel.v; Proofs/Total.v) — so C02_sound covers every accepted text *)
+Theorem C02_parser_fuel_suffices : forall text, parse_expression text <> EFuel.
+Proof. exact parse_expression_no_fuel. Qed.
+Print Assumptions C02_parser_fuel_suffices.
+
+Theorem C02_parser_returns : forall text,
+  (exists e, parse_expression text = EOk e) \/ (exists msg c, parse_expression text = EErr msg c).
+Proof. exact parse_expression_returns. Qed.
+Print Assumptions C02_parser_returns.
 
 (* non-vacuity *)
 Theorem C02_nonvacuous :
